@@ -29,6 +29,13 @@ RMBODY = {
     # no-op, together with the drop of its (then nondeterministic) Option<old value> result: the map is not updated,
     # so harnesses using this class observe the NAMES handed to make_cgivar (ghost log) but not the stored values.
     "nomap": ("noop", r"^hashbrown::map::HashMap::<.*>::insert /|^hashbrown::map::HashMap::<.*>::reserve /|^std::ptr::drop_glue::<std::option::Option<smallvec::SmallVec<\[u8; 16\]>>> /"),
+    # multi-step harnesses whose scenario contains no GetValues body: the name-value iterator must be unreachable
+    # (proved by the solver); removes the most expensive arm of every parse() iteration from symbolic execution
+    "nonv": ("unreachable", r"^<protocol::nv::NVIter<&\[u8\]> as std::iter::Iterator>::next /"),
+    # scenario never starts a request: the Params state machine must be unreachable
+    "noparams": ("unreachable", r"^parser::request::ParamsState::drive /"),
+    # sequential model: a std Mutex is never contended (spin loop unreachable)
+    "nocontend": ("unreachable", r"^std::sys::sync::mutex::futex::Mutex::lock_contended /"),
     "nogrow": ("unreachable", r"raw_vec::RawVecInner::grow_amortized /|raw_vec::RawVecInner::grow_exact /|SmallVec::<.*>::try_grow /"),
 }
 
@@ -75,6 +82,7 @@ class Harness:
         self.mem = int(kv.get("mem", DEFAULT_MEM_GB))
         self.flags = kv.get("flags", "")
         self.dead = int(kv.get("dead", 0))
+        self.unwindset = kv.get("unwindset", "")  # E8: per-loop unwinding bounds "fn-regex:N;fn-regex:N"
         self.rmbody = kv.get("rmbody", "")       # E8: names of function-body removals (see RMBODY)   # covers that are dead code BY CONSTRUCTION in this instantiation
         self.bound = bound
         self.funcs = funcs
@@ -161,7 +169,7 @@ def classify(rc, text, parsed, dead=0):
             "could not compile" in text:
         errs = re.findall(r"^error.*$", text, re.M)[:5]
         return "COMPILE", "; ".join(errs)
-    if "std::bad_alloc" in text or "Out of memory" in text or "memory exhausted" in text or \
+    if "std::bad_alloc" in text or "Out of memory" in text or "run out of memory" in text or "ran out of memory" in text or "memory exhausted" in text or \
             re.search(r"CBMC.*(SIGKILL|SIGABRT|signal)", text) or "Status: ERROR" in text and parsed["verdict"] != "SUCCESSFUL" and not parsed["failed"]:
         return "OOM", "solver ran out of memory (ulimit) or crashed"
     if parsed["verdict"] is None:
@@ -187,16 +195,23 @@ def classify(rc, text, parsed, dead=0):
 
 
 # ----------------------------------------------------------------------------- execution
-def sh(cmd, cwd, log, timeout, mem_gb, rmbody=""):
+def sh(cmd, cwd, log, timeout, mem_gb, rmbody="", unwindset=""):
     kb = mem_gb * 1024 * 1024
     wrapped = "ulimit -v %d; exec timeout -k 10 %d %s" % (kb, timeout, " ".join(map(shquote, cmd)))
     env = dict(scratch.ENV)
+    if unwindset:
+        env["KANI_HOME"] = ensure_wrap()
+        env["VERIF_UNWINDSET"] = unwindset
     if rmbody:
         env["KANI_HOME"] = ensure_wrap()
         env["VERIF_NOOP_RE"] = "|".join(RMBODY[x][1] for x in rmbody.split(",") if RMBODY[x][0] == "noop")
         env["VERIF_UNREACHABLE_RE"] = "|".join(RMBODY[x][1] for x in rmbody.split(",") if RMBODY[x][0] == "unreachable")
+    env["VERIF_WRAP_LOG"] = log + ".wrap"
     with open(log, "w") as f:
         p = subprocess.run(["bash", "-c", wrapped], cwd=cwd, stdout=f, stderr=subprocess.STDOUT, env=env)
+    if os.path.exists(log + ".wrap"):
+        with open(log, "a") as f:
+            f.write("\n" + "".join("[verif-wrap] " + l for l in open(log + ".wrap")))
     return p.returncode
 
 
@@ -253,7 +268,7 @@ def run_pool(jobs, crate, dep_target, rundir, nworkers, on_done):
             log = os.path.join(rundir, "logs", h.name + ".log")
             t0 = time.time()
             extra = h.flags.split(",") if h.flags else []
-            rc = sh(kani_cmd(h.full, tdir, extra), crate, log, timeout, h.mem, h.rmbody)
+            rc = sh(kani_cmd(h.full, tdir, extra), crate, log, timeout, h.mem, h.rmbody, h.unwindset)
             dt = time.time() - t0
             text = open(log, errors="replace").read()
             parsed = parse_log(text)
@@ -278,7 +293,7 @@ def playback(h, crate, tdir, rundir, prop):
     Returns (reproduced: bool|None, replay_path, note)."""
     log = os.path.join(rundir, "logs", h.name + ".playback.log")
     extra = (h.flags.split(",") if h.flags else []) + ["-Z", "concrete-playback", "--concrete-playback=print"]
-    sh(kani_cmd(h.full, tdir, extra), crate, log, 3600, max(h.mem, 16), h.rmbody)
+    sh(kani_cmd(h.full, tdir, extra), crate, log, 3600, max(h.mem, 16), h.rmbody, h.unwindset)
     text = open(log, errors="replace").read()
     tests = re.findall(r"```\n(.*?)```", text, re.S)
     tests = [t for t in tests if "kani_concrete_playback" in t and "Check for `cover`" not in t]
